@@ -1,4 +1,38 @@
 import LitexProofs.Ecc.Secded
+import LitexProofs.Ecc.Multi
+import LitexProofs.Ecc.TablesBig
+/-
+  INVENTORY of litex/soc/cores/ecc.py and of its users (what is modelled, which theorem, how it is tied)
+  ------------------------------------------------------------------------------------------------------------------
+  code                              | model (LitexModel/Ecc)         | theorems                              | tie
+  ----------------------------------+--------------------------------+---------------------------------------+---------
+  compute_m_n                       | computeMLoop/computeM/N/MN     | m_minimal, m_unique, code_length,     | call mn, ALL k 1..512
+                                    |                                | position_fits_syndrome                |
+  compute_syndrome_positions        | synLoop/syndromePositions      | check_positions                       | call synpos, all n in grid
+  compute_data_positions            | dataPositions                  | data_positions, data_positions_count  | call datapos, all n in grid
+  compute_cover_positions           | coverLoop/coverPositions       | cover_eq_filter (every stride 2^b)    | call cover, every stride p<=n+1 (n<=40), powers of two beyond
+  SECDED.place_data                 | placeData (scatter)            | via syndrome_zero/no_error_clean      | through enc
+  SECDED.extract_data               | extractData                    | disabled_passthrough, *_clean         | through dec; REGENERATED decPass (extraction matrix)
+  SECDED.compute_syndrome           | xorFold/computeSyndrome        | syndrome_zero/_single/_check_bit,     | call syn (internal syndrome signal of the real
+                                    |                                | syndrome_any_errors                   | decoder); REGENERATED synCols (parity-check matrix)
+  SECDED.place_syndrome             | placeSyndrome                  | syndrome_zero                         | through enc
+  SECDED.compute_parity             | xorAll                         | syndrome_zero (even), parity_bit_error| through enc/dec
+  ECCEncoder                        | encode, encVal                 | syndrome_zero, code_length,           | call enc: all words k<=8, sampled k<=128;
+                                    |                                | generated_tables_match (rows k<=16)   | REGENERATED encRows/encZero + linearity on random pairs
+  ECCDecoder (enable=1)             | decode true, decVal, synOf,    | sec_correct(+_driver), ded_detect     | call dec: ALL 2^(n+1) words k<=8; all single flips,
+                                    | flipMaskOf                     | (+_driver), flags_any_errors,         | all/sampled pairs, arbitrary words k<=128; REGENERATED
+                                    |                                | triple_error, generated_tables_match  | decSingle/synCols/flipCols (k = 1..16, 32, 64, 128)
+  ECCDecoder (enable=0)             | decode false                   | disabled_passthrough(+_value),        | call dec en=0; REGENERATED decPass
+                                    |                                | disabled_roundtrip                    |
+  Case(syndrome,…) 2^m-1 entries    | flipAt (no-op beyond n)        | sec_correct, generated_tables_match   | flipCols + arbitrary words (syndromes > n)
+  USER: test/test_ecc.py DUT,       | loopback (decoder.i =          | loopback_single, loopback_double,     | call loop against ONE netlist holding both cores
+   litedram frontend (not in repo)  |  encoder.o ^ flip)             | loopback_clean                        | (job_loopback)
+  urv core `g_with_ecc = 0`         | not ecc.py (Verilog parameter) | -                                     | -
+  ------------------------------------------------------------------------------------------------------------------
+  REGENERATED = `LitexModel/Generated/EccTables.lean`, rewritten on every run from the elaborated netlists (zero word and
+  unit vectors) and compared with the model by the Lean kernel (`generated_tables_match`); GF(2)-linearity of the real
+  encoder / disabled decoder is checked on random pairs at regeneration time and on every word the jobs evaluate.
+-/
 /-
   C18 — ECC corrects every single-bit error and flags every double-bit error (`litex/soc/cores/ecc.py`).
 
@@ -178,6 +212,151 @@ theorem roundtrip_value (k : Nat) (hk : 1 ≤ k) (x : Nat) (hx : x < 2 ^ k) (en 
     rw [disabled_roundtrip k hk _ (natToBits_length k x)]
     exact ⟨bitsToNat_natToBits k x hx, rfl, rfl⟩
 
+/-! ## Code length, minimality -/
+
+/-- `m` is THE least number of check bits: any `m' ≥ 1` that satisfies the Hamming bound `2^m' ≥ m' + k + 1` and is
+    minimal with it equals `compute_m_n(k)[0]`. -/
+theorem m_unique (k m' : Nat) (h1 : 1 ≤ m') (hb : m' + k + 1 ≤ 2 ^ m')
+    (hmin : ∀ m'', 1 ≤ m'' → m'' < m' → 2 ^ m'' < m'' + k + 1) : m' = computeM k := by
+  obtain ⟨c1, cb, cmin⟩ := computeM_spec k
+  rcases Nat.lt_trichotomy m' (computeM k) with h | h | h
+  · have := cmin m' h1 h; omega
+  · exact h
+  · have := hmin (computeM k) c1 h; omega
+
+/-- The transmitted word has `m + k + 1` bits; bit 0 is the overall parity of the other `n = m + k` bits, which are
+    the Hamming code word (check bits at the powers of two, data elsewhere). -/
+theorem code_length (k : Nat) (d : Word) :
+    (encode k d).length = computeM k + k + 1 ∧ computeMN k = (computeM k, computeM k + k) ∧
+    (encode k d).head? = some (xorAll ((encode k d).drop 1)) := by
+  refine ⟨by rw [encode_length]; rfl, rfl, ?_⟩
+  rw [encode_eq]; rfl
+
+/-! ## Special single errors -/
+
+/-- The overall parity bit alone inverted: the syndrome stays 0, so NO flag is raised (`sec = 0`, `ded = 0`) and the
+    data is unchanged — "corrected" is signalled exactly for data and check bits. -/
+theorem parity_bit_error (k : Nat) (hk : 1 ≤ k) (d : Word) (hd : d.length = k) :
+    decode true (flipAt (encode k d) 0) = { o := d, sec := false, ded := false } ∧
+    bitsToNat (computeSyndrome ((flipAt (encode k d) 0).drop 1)) = 0 := by
+  refine ⟨by simpa using sec_correct k hk d hd 0 (Nat.zero_le _), ?_⟩
+  rw [encode_eq, flipAt_cons_zero, List.drop_one, List.tail_cons, syndrome_value_zero]
+
+/-- A CHECK bit (position `2^b`) inverted: the syndrome is one-hot (`2^b`, only syndrome bit `b` is set), the decoder
+    inverts the check bit back, the data is untouched and `sec = 1`. -/
+theorem syndrome_check_bit (k : Nat) (hk : 1 ≤ k) (d : Word) (hd : d.length = k) (b : Nat) (hb : 2 ^ b ≤ computeN k) :
+    bitsToNat (computeSyndrome ((flipAt (encode k d) (2 ^ b)).drop 1)) = 2 ^ b ∧
+    decode true (flipAt (encode k d) (2 ^ b)) = { o := d, sec := true, ded := false } := by
+  refine ⟨syndrome_single k hk d (2 ^ b) (Nat.two_pow_pos b) hb, ?_⟩
+  have := sec_correct k hk d hd (2 ^ b) hb
+  have hne : 2 ^ b ≠ 0 := Nat.ne_of_gt (Nat.two_pow_pos b)
+  simpa [hne] using this
+
+/-! ## ANY error pattern: what the decoder does beyond its guarantee -/
+
+/-- For ANY list of inverted positions (repetitions cancel) the syndrome is the XOR of the positions (the parity bit,
+    position 0, contributes 0) and the flags are: `sec` iff that XOR is non-zero and the number of flips is odd, `ded`
+    iff it is non-zero and the number is even; the output is the received data with the position named by the
+    syndrome inverted. -/
+theorem flags_any_errors (k : Nat) (hk : 1 ≤ k) (d : Word) (errs : List Nat) (h : ∀ j, j ∈ errs → j ≤ computeN k) :
+    let w := errs.foldl flipAt (encode k d)
+    bitsToNat (computeSyndrome (w.drop 1)) = xorPos errs ∧
+    (decode true w).sec = (xorPos errs != 0 && decide (errs.length % 2 = 1)) ∧
+    (decode true w).ded = (xorPos errs != 0 && decide (errs.length % 2 = 0)) ∧
+    (decode true w).o = extractData (if xorPos errs = 0 then w.drop 1 else flipAt (w.drop 1) (xorPos errs - 1)) := by
+  obtain ⟨x', c', e, _, hs, hp⟩ := decode_flips k hk d errs h
+  simp only [e, decode_cons, List.drop_one, List.tail_cons, hs, hp, true_and]
+  rcases Nat.mod_two_eq_zero_or_one errs.length with h0 | h0 <;> simp [h0]
+
+/-- TRIPLE errors are outside the guarantee.  The decoder NEVER reports them as uncorrectable: `ded = 0` always;
+    it claims a correction (`sec = 1`, inverting a FOURTH position `j1 ^ j2 ^ j3` if that is ≤ n) unless the three
+    positions XOR to 0 (e.g. 1, 2, 3), in which case the corrupted data passes silently. -/
+theorem triple_error (k : Nat) (hk : 1 ≤ k) (d : Word) (j1 j2 j3 : Nat)
+    (h1 : j1 ≤ computeN k) (h2 : j2 ≤ computeN k) (h3 : j3 ≤ computeN k) :
+    let r := decode true (flipAt (flipAt (flipAt (encode k d) j1) j2) j3)
+    r.ded = false ∧ r.sec = (j1 ^^^ j2 ^^^ j3 != 0) := by
+  have h := flags_any_errors k hk d [j1, j2, j3] (by
+    intro j hj
+    simp only [List.mem_cons, List.not_mem_nil, or_false] at hj
+    rcases hj with rfl | rfl | rfl <;> assumption)
+  simp only [List.foldl_cons, List.foldl_nil, List.length_cons, List.length_nil] at h
+  have hx : xorPos [j1, j2, j3] = j1 ^^^ j2 ^^^ j3 := by simp [xorPos]
+  rw [hx] at h
+  exact ⟨by rw [h.2.2.1]; simp, by rw [h.2.1]; simp⟩
+
+/-! ## Driver level: exactly the functions `call enc` / `call dec` / `call loop` serve and the harness compares
+    (`encVal k x` = value of `ECCEncoder(k).o`, `decVal k en w` = `ECCDecoder(k)` on the input value `w`) -/
+
+/-- Single error on values: `decoder(encoder(x) ^ (1 << j))` for every bit `j` of the `n+1`-bit word. -/
+theorem sec_correct_driver (k : Nat) (hk : 1 ≤ k) (x j : Nat) (hj : j ≤ computeN k) :
+    decVal k true (encVal k x ^^^ 2 ^ j) = { o := natToBits k x, sec := decide (j ≠ 0), ded := false } := by
+  unfold decVal
+  rw [decVal_flip1 k x j hj]
+  exact sec_correct k hk _ (natToBits_length k x) j hj
+
+/-- Double error on values: `decoder(encoder(x) ^ (1 << j1) ^ (1 << j2))`, `j1 ≠ j2`. -/
+theorem ded_detect_driver (k : Nat) (hk : 1 ≤ k) (x j1 j2 : Nat) (hne : j1 ≠ j2)
+    (h1 : j1 ≤ computeN k) (h2 : j2 ≤ computeN k) :
+    (decVal k true (encVal k x ^^^ 2 ^ j1 ^^^ 2 ^ j2)).ded = true ∧
+    (decVal k true (encVal k x ^^^ 2 ^ j1 ^^^ 2 ^ j2)).sec = false := by
+  unfold decVal
+  rw [decVal_flip2 k x j1 j2 h1 h2]
+  exact ded_detect k hk _ j1 j2 hne h1 h2
+
+/-- Checking disabled, ANY input value `w`: output bit `i` is input bit `dataPositions[i]`, no flags. -/
+theorem disabled_passthrough_value (k w : Nat) :
+    decVal k false w = { o := (dataPositions (computeN k)).map fun p => w.testBit p, sec := false, ded := false } := by
+  unfold decVal
+  rw [disabled_passthrough, natToBits_length, Nat.add_sub_cancel]
+  simp only [DecOut.mk.injEq, and_true]
+  apply List.map_congr_left
+  intro p hp
+  have := (dataPositions_bounds _ p hp).2
+  unfold natToBits
+  rw [getD_map_range, if_pos (by omega)]
+
+/-- The user of the two cores (test bench DUT / memory controller): `decoder.i = encoder.o ^ flip`. -/
+theorem loopback_clean (k : Nat) (hk : 1 ≤ k) (x : Nat) (en : Bool) :
+    (loopback k en x 0).2 = { o := natToBits k x, sec := false, ded := false } := by
+  unfold loopback decVal
+  rw [Nat.xor_zero, decVal_clean]
+  cases en with
+  | true => exact no_error_clean k hk _ (natToBits_length k x)
+  | false => exact disabled_roundtrip k hk _ (natToBits_length k x)
+
+theorem loopback_single (k : Nat) (hk : 1 ≤ k) (x j : Nat) (hj : j ≤ computeN k) :
+    (loopback k true x (2 ^ j)).2 = { o := natToBits k x, sec := decide (j ≠ 0), ded := false } :=
+  sec_correct_driver k hk x j hj
+
+theorem loopback_double (k : Nat) (hk : 1 ≤ k) (x j1 j2 : Nat) (hne : j1 ≠ j2)
+    (h1 : j1 ≤ computeN k) (h2 : j2 ≤ computeN k) :
+    (loopback k true x (2 ^ j1 ^^^ 2 ^ j2)).2.ded = true ∧ (loopback k true x (2 ^ j1 ^^^ 2 ^ j2)).2.sec = false := by
+  unfold loopback
+  simp only [← Nat.xor_assoc]
+  exact ded_detect_driver k hk x j1 j2 hne h1 h2
+
+/-! ## The model against the tables REGENERATED from the real netlists on this run -/
+
+/-- For every width in the generated table (1..16, 32, 64, 128) the model's single-error table, parity-check
+    (syndrome) matrix, correction table and extraction matrix equal what the elaborated `ECCDecoder` computes; for the
+    widths 1..16 the model's generator matrix equals what the elaborated `ECCEncoder` computes (kernel-checked). -/
+theorem generated_tables_match :
+    (∀ k ∈ Tables.widths, mDecSingle k = Tables.decSingle k ∧ mSynCols k = Tables.synCols k ∧
+      mFlipCols k = Tables.flipCols k ∧ mDecPass k = Tables.decPass k) ∧
+    (∀ k ∈ smallWidths, mEncRows k = Tables.encRows k ∧ encVal k 0 = Tables.encZero k) :=
+  ⟨decoder_tables_match, small_encRows⟩
+
+/-- The regenerated tables themselves state the property on the unit vectors: every single inverted bit of the zero
+    code word gives syndrome = its position, the decoder inverts that very bit, `o = 0`, `sec = (j ≠ 0)`, `ded = 0`. -/
+theorem generated_tables_property : ∀ k ∈ Tables.widths,
+    Tables.synCols k = List.range (Tables.codeLen k) ∧
+    Tables.decSingle k = (List.range (Tables.codeLen k)).map fun j => if j = 0 then 0 else 2 := by
+  intro k hk
+  rw [tables_widths] at hk
+  obtain ⟨h0, h1, h2, _⟩ := closed_tables_check k hk
+  rw [h0]; exact ⟨h2, h1⟩
+
+
 /-! ## Non-vacuity: concrete instances (k = 4: m = 3, n = 7, 8-bit code word; k = 11: m = 4, n = 15) -/
 
 example : computeMN 4 = (3, 7) ∧ computeMN 11 = (4, 15) ∧ computeMN 128 = (8, 136) := by decide
@@ -201,5 +380,16 @@ example : (decode true (flipAt (flipAt (flipAt (encode 4 [true, false, true, tru
 -- enable = 0: an inverted data bit passes through uncorrected and unflagged
 example : decode false (flipAt (encode 4 [true, false, true, true]) 3) = ⟨[false, false, true, true], false, false⟩ := by
   decide
+
+-- three errors 1,2,3 XOR to 0: silent; 1,2,7: "corrected" into a wrong word (see `triple_error`)
+example : (decode true (flipAt (flipAt (flipAt (encode 4 [true, false, true, true]) 1) 2) 3)) =
+    ⟨[false, false, true, true], false, false⟩ := by decide
+-- driver level, k = 4: data 13, code word 204; bit 3 / bits 0 and 3 inverted
+example : encVal 4 13 = 204 ∧ decVal 4 true (204 ^^^ 8) = ⟨natToBits 4 13, true, false⟩ ∧
+    (loopback 4 true 13 9).2.ded = true := by decide
+-- a check bit (position 4) inverted: one-hot syndrome 4
+example : synVal 4 true (204 ^^^ 16) = 4 ∧ flipMaskVal 4 true (204 ^^^ 16) = 16 := by decide
+-- the regenerated tables are not empty
+example : Tables.encRows 4 = [15, 51, 85, 150] ∧ (Tables.synCols 128).length = 137 := by decide +kernel
 
 end Litex.C18
